@@ -35,4 +35,4 @@ def unit_noisy(a):
 
 def run_noisy(ctx):
     q = ctx.quick
-    ctx.units("noisy-accepted-documents", unit_noisy, [{"n": 500 if q else 6000, "seed": ctx.seed, "shard": i} for i in range(4 if q else 16)], procs=16)
+    ctx.units("noisy-accepted-documents", unit_noisy, [{"n": 750 if q else 6000, "seed": ctx.seed, "shard": i} for i in range(8 if q else 16)], procs=16)
